@@ -1069,7 +1069,10 @@ LEVEL_TEXT = ('Full-product exploration of the real pmutt.constants tables: ever
               'ordered pair and triple inside each of the 11 quantity types, every cross-type pair, every key of '
               'R/h/kb/c/m_e/m_p/P0/T0/V0 (source dict and documented table), all helper pairs and paths, all 118 '
               'elements in both element tables, and all dict / formula compositions of a 10-element alphabet, '
-              'each against SI definitions, textbook relations or a second route through the same tables.')
+              'each against SI definitions, textbook relations or a second route through the same tables.  Every '
+              'ordered pair and every helper is also called with integer-typed numbers, numpy scalars, num=None and '
+              '11 array forms in a four-call history (call, repeat, overwrite the result, edit the argument in '
+              'place); helper arguments cover both signs and zero.')
 LEVEL_NOTE = ('Numeric arguments come from short fixed lists; compositions are bounded to 2 (quick) / 3 (thorough) '
               'elements or formula tokens; the tolerance of a rounded table entry is one unit of its last written '
               'digit, CODATA quantities 1e-7 (2014 vs 2018 sets).  Standard entropies of the elements have no '
